@@ -79,7 +79,9 @@ func (u *decodeUnit) cycle(cycle int, app risc.Application, ctx *risc.Context) {
 			return
 		}
 		if runner.InstructionType() == risc.Ret {
+			// Nothing is decoded past a return
 			u.ret = true
+			return
 		}
 	}
 }
